@@ -557,6 +557,10 @@ func patternsC15(c *Ctx) {
 			c.Unk("C15.patterns", gname+": (c) password capture", pos, "no capture group")
 			continue
 		}
+		if len(seq) > 0 && seq[len(seq)-1] != capt {
+			c.Unk("C15.patterns", gname+": (c) password capture", pos, "the capture group is not the last element of the pattern: it need not be the password (the text in front of it may be captured and kept instead)")
+			continue
+		}
 		// repeated character classes inside the capture: a quoted alternative
 		// whose body admits blanks / the other quote redacts such passwords whole
 		var bodies []*syntax.Regexp
